@@ -301,8 +301,20 @@ def run(ctx):
                     a = _op(g, t["args"][1])
                     consts = []
                     from qv.engine import walk_expr as _we
-                    _we(a, lambda n: consts.append(n[1]) if n[0] == "const" and isinstance(n[1], int) else None)
-                    brk = consts[0] if consts else None
+
+                    def _ints(e_, depth_=0):
+                        # integer literals of the operand; a named `const` item is followed to its initializer
+                        def v_(n):
+                            if n[0] == "const" and isinstance(n[1], int) and not isinstance(n[1], bool):
+                                consts.append(n[1])
+                            elif n[0] == "const" and isinstance(n[1], str) and n[1].startswith("quil_rs::") and depth_ < 4:
+                                for h in db.fns:
+                                    if h.path == n[1]:
+                                        _ints(_op(h, {"m": {"l": 0, "pr": []}}), depth_ + 1)
+                        _we(e_, v_)
+
+                    _ints(a)
+                    brk = consts[0] if len(consts) == 1 else None
                 if c and c.get("name") == "trim_floats":
                     a = _op(g, t["args"][1])
                     trim = a[1] if a[0] == "const" else None
